@@ -176,23 +176,29 @@ public:
 			const auto &t = p.stmts[pc];
 			const std::string &op = t[0];
 			if (op == "elif" || op == "else" || op == "endif") { if (depth == 0) throw std::runtime_error("stray " + op); return; }
-			if (op == "if") { pc++; ifchain(p, pc, asB(t[1]), depth); continue; }
+			if (op == "if") { pc++; ifchain(p, pc, t[1], depth); continue; }
 			stmt(t);
 			pc++;
 		}
 	}
-	void ifchain(const Program &p, size_t &pc, Bit cond, int depth) {
+	// the condition object itself (not a copy) when the variable is a Bit: `IF (b)` in user code passes b by reference,
+	// and the scope bookkeeping compares condition PORTS
+	struct CondRef { Bit tmp; const Bit *p; };
+	void condOf(const std::string &n, CondRef &c) { Val &v = get(n); if (v.isBit()) c.p = &v.b(); else { c.tmp = v.u().lsb(); c.p = &c.tmp; } }
+
+	void ifchain(const Program &p, size_t &pc, const std::string &condName, int depth) {
 		// IF (cond) { ... } ELSEIF (c) { ... } ELSE { ... }  built from the same constructors the macros use
 		{
-			ConditionalScope sc(cond);
+			CondRef cr; condOf(condName, cr);
+			ConditionalScope sc(*cr.p);
 			block(p, pc, depth + 1);
 		}
 		while (pc < p.stmts.size()) {
 			const auto &t = p.stmts[pc];
 			if (t[0] == "elif") {
 				pc++;
-				Bit c = asB(t[1]);
-				ConditionalScope sc(ConditionalScope::ElseCase{}, c);
+				CondRef cr; condOf(t[1], cr);
+				ConditionalScope sc(ConditionalScope::ElseCase{}, *cr.p);
 				block(p, pc, depth + 1);
 			} else if (t[0] == "else") {
 				pc++;
